@@ -81,8 +81,8 @@ where
                 let name = self.cx().crate_name(k);
                 format!("    \"{name}\"")
             })
-            .dedup()
             .sorted()
+            .dedup()
             .join(",\n");
 
         let mut cargo_toml = toml::from_str::<toml::Value>(&unsafe {
